@@ -328,15 +328,16 @@ impl<'a> HavokBinaryTagFileReader<'a> {
         let mut result = ((byte & 0x7f) >> 1) as u32;
         let neg = byte & 1;
 
-        let mut shift = 6;
+        let mut shift: u32 = 6;
         while byte & 0x80 != 0 {
             byte = self.reader.read();
 
-            result |= ((byte as u32) & 0xffff_ff7f) << shift;
-            shift += 7;
+            // bits shifted past the 32-bit result are dropped instead of overflowing the shift
+            result |= ((byte as u32) & 0xffff_ff7f).checked_shl(shift).unwrap_or(0);
+            shift = shift.saturating_add(7);
         }
         if neg == 1 {
-            -(result as HavokInteger)
+            (result as HavokInteger).wrapping_neg()
         } else {
             result as HavokInteger
         }
